@@ -243,23 +243,57 @@ def type_at(types: Dict[Tuple, Any], path: Tuple):
     return t
 
 
+def impossible_typenames(schema, holder_type, rng, static_names: Optional[Set[str]] = None, near: Optional[Set[str]] = None) -> List[str]:
+    """Names that are not a possible type of a position of type `holder_type`: a name no type has, a real object type of the schema that cannot
+    occur there, and the name of an abstract type (responses never carry one)."""
+    names = ["NotAPossibleType"]
+    if schema is None or holder_type is None:
+        return names
+    from graphql import GraphQLObjectType, is_abstract_type
+    named = get_named_type(holder_type)
+    ok: Set[str] = set()
+    for nt in [named] + [schema.type_map[n.strip("[]!")] for n in (static_names or ()) if n.strip("[]!") in schema.type_map]:
+        # every declaration the selection may have been written against (an object can refine an interface field covariantly)
+        ok |= {o.name for o in schema.get_possible_types(nt)} if is_abstract_type(nt) else {nt.name}
+    roots = {t.name for t in (schema.query_type, schema.mutation_type, schema.subscription_type) if t is not None}
+    foreign = sorted(n for n, t in schema.type_map.items() if isinstance(t, GraphQLObjectType) and not n.startswith("__") and n not in ok and n not in roots)
+    if foreign:
+        # prefer object types that some type condition written in the document can match (a fragment on an overlapping interface or union):
+        # those are the names a sloppy Literal is most likely to admit
+        close = [n for n in foreign if n in (near or ())]
+        names.append(rng.choice(close) if close and rng.random() < 0.8 else rng.choice(foreign))
+    abstract = sorted(n for n, t in schema.type_map.items() if is_abstract_type(t) and n not in ok)
+    if abstract:
+        names.append(named.name if (is_abstract_type(named) and rng.random() < 0.5) else rng.choice(abstract))
+    return names
+
+
 def corruptions(data: Dict[str, Any], types: Dict[Tuple, Any], rpaths: Dict[Tuple, Dict[str, Any]], custom_any: Set[str], limit: int, rng,
-                static_types: Optional[Dict[Tuple, Set[str]]] = None) -> List[Tuple[str, Tuple, Any]]:
+                static_types: Optional[Dict[Tuple, Set[str]]] = None, schema=None, near: Optional[Set[str]] = None) -> List[Tuple[str, Tuple, Any]]:
     """-> [(kind, path, corrupted data)] single-point corruptions that the statement says must be rejected."""
     out: List[Tuple[str, Tuple, Any]] = []
     positions = [p for p in enumerate_positions(data) if p[0]]
     rng.shuffle(positions)
+
+    def holder_static(path):
+        fp = path[:-1]
+        while fp and isinstance(fp[-1], int):
+            fp = fp[:-1]
+        return (static_types or {}).get(key_path(fp))
+
     for path, value in positions:
         if len(out) >= limit:
             break
         if path[-1] == "__typename":
             if len(path) > 1 and type_at(types, path[:-1]) is not None:
-                out.append(("typename-not-possible", path, set_at(data, path, "NotAPossibleType")))
+                for bad in impossible_typenames(schema, type_at(types, path[:-1]), rng, holder_static(path), near):
+                    out.append(("typename-not-possible", path, set_at(data, path, bad)))
             continue
         if (rpaths.get(key_path(path)) or {}).get("aliased_typename") and isinstance(value, str):
             # `kind: __typename` - the same obligation under another response key
             if len(path) > 1 and type_at(types, path[:-1]) is not None and not rpaths[key_path(path)]["conditional"]:
-                out.append(("typename-not-possible", path, set_at(data, path, "NotAPossibleType")))
+                for bad in impossible_typenames(schema, type_at(types, path[:-1]), rng, holder_static(path), near):
+                    out.append(("typename-not-possible", path, set_at(data, path, bad)))
             continue
         t = type_at(types, path)
         if t is None:
